@@ -46,6 +46,9 @@ AXES = [
     ("data_section_header", ["~ASCII", "~A", "~A Log data"]),
     ("dlm", [None, "COMMA", "TAB"]),
     ("names", ["C", "numeric"]),
+    # how the object came to be: built through the API, or read from text with a case-normalising option and then
+    # given the palette matrix (its header mnemonics are then lower/upper case)
+    ("origin", ["built", "read-lower", "read-upper"]),
 ]
 
 
@@ -142,6 +145,13 @@ def check_point(pt):
     names = mnemonics(nc, cfg["names"])
     for j in range(nc):
         las.append_curve(names[j], m[:, j].copy(), unit="U")
+    if cfg["origin"] != "built":
+        s0 = io.StringIO()
+        las.write(s0, version=2.0, fmt="%.3f")
+        las = lasio.read(s0.getvalue(), mnemonic_case=cfg["origin"][5:])
+        for j, c in enumerate(list(las.curves)):
+            c.data = m[:, j].copy()
+        names = [n.upper() for n in names]  # the read-back below uses the default mnemonic_case="upper"
     kw = {k: cfg[k] for k in ("version", "wrap", "fmt", "len_numeric_field", "spacer", "lhs_spacer", "data_width",
                               "mnemonics_header", "data_section_header")}
     cf = cfg["column_fmt"]
